@@ -21,7 +21,9 @@
 #ifndef VF_LIB
 #define VF_LIB "cJSON_Utils.c"
 #endif
+#include "vf_trap.h"
 #include VF_LIB
+#include "vf_untrap.h"
 
 typedef struct { int kind; /* 1 compose 2 recurse */ char op[8]; char path[12]; char suffix[6]; int has_suffix; const cJSON *value; const cJSON *a, *b; } rec_t;
 static rec_t rec[NREC]; static unsigned nrec; static cJSON patches_dummy;
